@@ -9,7 +9,7 @@
   differentially tested is listed in lean/registry/C01.json.
 -/
 import Goloop.Proofs.C01Abs
-import Goloop.Model.C01
+import Goloop.Proofs.C01G1
 namespace Goloop.C01.Props
 open Goloop.C01
 
@@ -79,6 +79,36 @@ theorem exH_guarantees : Guarantees 1 (fun _ => false) exH := by
     | s+2, _ => simp [exH] at hs
 
 example : fewByz 1 (fun _ => false) ∧ commitQ 1 exH 0 7 := by decide
+
+/-! ### L-val: the transcribed validator machine, without crash -/
+
+/-- **G0 for L-val (no crash).**  For every event sequence without crash (proposals, block parts,
+    votes of anybody incl. equivocating ones, timeouts, BlockManager callbacks at any later time, in any
+    order, any length) the validator signs its votes with strictly increasing (height, round, step)
+    keys: it never goes back to an earlier round or step. -/
+theorem vstep_G0 (n me : Nat) (evs : List Event) (hn : ∀ e ∈ evs, e.noCrash) :
+    (sentOf (run (start { n := n, me := me }) evs).eff).Pairwise msgLt :=
+  (run_core _ evs hn (ev_start_fresh _ rfl rfl)).inc
+
+/-- **G1 for L-val (no crash)** — also the no-crash half of C02: two votes signed by the validator
+    for the same height, round and type are the same vote (so never two different values). -/
+theorem vstep_G1 (n me : Nat) (evs : List Event) (hn : ∀ e ∈ evs, e.noCrash)
+    (v w : VoteRec)
+    (hv : Msg.vote v ∈ sentOf (run (start { n := n, me := me }) evs).eff)
+    (hw : Msg.vote w ∈ sentOf (run (start { n := n, me := me }) evs).eff)
+    (hh : v.height = w.height) (hr : v.round = w.round) (ht : v.typ = w.typ) : v = w :=
+  pairwise_msgLt_unique (vstep_G0 n me evs hn) hv hw (by unfold voteKey; rw [hh, hr, ht])
+
+/-- every vote it has signed is at or before its current (height, round, step) -/
+theorem vstep_votes_behind_state (n me : Nat) (evs : List Event) (hn : ∀ e ∈ evs, e.noCrash)
+    (v : VoteRec) (hv : Msg.vote v ∈ sentOf (run (start { n := n, me := me }) evs).eff) :
+    lexLe (voteKey v) ((run (start { n := n, me := me }) evs).height,
+      (run (start { n := n, me := me }) evs).round, (run (start { n := n, me := me }) evs).step) :=
+  (run_core _ evs hn (ev_start_fresh _ rfl rfl)).bnd v hv
+
+example : (∀ e ∈ ([.proposal 1 1 0 9 (-1), .blockPart 1 9, .async, .vote ⟨1,1,.prevote,0,some 9⟩,
+    .timeout 3] : List Event), e.noCrash) := by
+  intro e he; simp at he; rcases he with rfl | rfl | rfl | rfl | rfl <;> simp [Event.noCrash]
 
 /-! ### F1 witness: the transcribed machine (and, replayed by the harness, the real engine) loses the
     raised lock round on restart.
